@@ -92,7 +92,6 @@ Hypothesis children_spec : forall v x, v < n -> (In x (children v) <-> x < n /\ 
 Hypothesis children_nodup : forall v, v < n -> NoDup (children v).
 Hypothesis tops_spec : forall t, In t tops <-> t < n /\ forall j, j < n -> slt leq t j = false.
 Hypothesis tops_nodup : NoDup tops.
-Hypothesis n_pos : 0 < n.
 
 Notation lev := C19_LineLayout.lev.
 Let hgt := hgt n parents.
@@ -101,7 +100,7 @@ Lemma levels_facts :
   exists levels ld m,
     calc_levels n parents children tops = LOk (levels, ld) /\ length levels = n /\
     (forall v, v < n -> lev levels v = Z.of_nat (hgt v)) /\
-    (0 <= m)%Z /\ (forall v, v < n -> (lev levels v <= m)%Z) /\
+    (forall v, v < n -> (lev levels v <= m)%Z) /\
     ld = map (fun k => filter (fun i => Z.eqb (lev levels i) (Z.of_nat k)) (elems n)) (seq 0 (Z.to_nat (m + 1))).
 Proof.
   destruct (calc_loop_levels n parents children tops hgt) as (levels & EL & Len & Hl).
@@ -113,19 +112,19 @@ Proof.
   - eapply parents_in; eassumption.
   - eapply children_parents; eassumption.
   - exact children_nodup.
-  - destruct (zmax_list levels) as [m|] eqn:EM.
-    2:{ destruct levels; [cbn in Len; lia | discriminate]. }
+  - set (m := match zmax_list levels with Some m => m | None => (-1)%Z end).
     assert (NN : existsb (fun z => Z.ltb z 0) levels = false).
     { destruct (existsb (fun z => Z.ltb z 0) levels) eqn:X; [|reflexivity]. exfalso.
       apply existsb_exists in X. destruct X as (z & Hz & Lz). apply Z.ltb_lt in Lz.
       destruct (In_nth _ _ (-1)%Z Hz) as (i & Hi & Ei). rewrite Len in Hi.
       specialize (Hl i Hi). unfold C19_LineLayout.lev in Hl. rewrite Ei in Hl. lia. }
     assert (B : forall v, v < n -> (lev levels v <= m)%Z).
-    { intros v Hv. apply (zmax_list_ge levels m EM). unfold C19_LineLayout.lev. apply nth_In. lia. }
+    { intros v Hv. unfold m. destruct (zmax_list levels) as [m0|] eqn:EM.
+      - apply (zmax_list_ge levels m0 EM). unfold C19_LineLayout.lev. apply nth_In. lia.
+      - destruct levels; [cbn in Len; lia | discriminate]. }
     exists levels, (map (fun k => filter (fun i => Z.eqb (lev levels i) (Z.of_nat k)) (elems n)) (seq 0 (Z.to_nat (m + 1)))), m.
-    split; [unfold calc_levels; rewrite EL, EM, NN; reflexivity|].
+    split; [unfold calc_levels; rewrite EL; cbv zeta; fold m; rewrite NN; reflexivity|].
     split; [exact Len|]. split; [exact Hl|].
-    split; [specialize (B 0 n_pos); rewrite (Hl 0 n_pos) in B; lia|].
     split; [exact B | reflexivity].
 Qed.
 
@@ -261,11 +260,12 @@ Theorem fcart_total_distinct :
     forall i j, i < n -> j < n -> i <> j ->
       ~ ((fst (nth i ps (0, 0)) == fst (nth j ps (0, 0))) /\ (snd (nth i ps (0, 0)) == snd (nth j ps (0, 0))))%Q.
 Proof.
-  destruct levels_facts as (levels & ld & m & E & Len & Hl & M0 & Hm & Hld).
+  destruct levels_facts as (levels & ld & m & E & Len & Hl & Hm & Hld).
   eexists. split; [unfold fcart_layout; rewrite E; reflexivity|].
   split; [unfold elems; now rewrite map_length, seq_length|].
   intros i j Hi Hj Nij [Ex Ey].
   unfold elems in Ex, Ey. rewrite !(nth_map_seq _ n _ _) in Ex, Ey by assumption. cbn [fst snd] in Ex, Ey.
+  assert (M0 : (0 <= m)%Z) by (pose proof (Hm i Hi) as B0; rewrite (Hl i Hi) in B0; lia).
   assert (LL : 0 < length ld) by (rewrite (ld_length levels ld m Hld); lia).
   destruct (Z.lt_trichotomy (lev levels i) (lev levels j)) as [H|[H|H]].
   - pose proof (qy_lt _ _ (length ld) LL H) as Q. unfold fcart_y in Ey. rewrite Ey in Q. apply (Qlt_irrefl _ Q).
@@ -284,9 +284,10 @@ Theorem fcart_order :
     forall i j, i < n -> j < n -> slt leq j i = true ->
       (snd (nth j ps (0, 0)) < snd (nth i ps (0, 0)))%Q.
 Proof.
-  destruct levels_facts as (levels & ld & m & E & Len & Hl & M0 & Hm & Hld).
+  destruct levels_facts as (levels & ld & m & E & Len & Hl & Hm & Hld).
   eexists. split; [unfold fcart_layout; rewrite E; reflexivity|].
   intros i j Hi Hj L. unfold elems. rewrite !(nth_map_seq _ n _ _) by assumption. cbn [snd].
+  assert (M0 : (0 <= m)%Z) by (pose proof (Hm i Hi) as B0; rewrite (Hl i Hi) in B0; lia).
   assert (LL : 0 < length ld) by (rewrite (ld_length levels ld m Hld); lia).
   unfold fcart_y. apply qy_lt; [exact LL|]. rewrite !Hl by assumption.
   assert (H : hgt i < hgt j) by (eapply level_strict; eassumption). lia.
@@ -325,3 +326,23 @@ Qed.
 Lemma tops_of_nodup : NoDup (tops_of n leq).
 Proof. apply NoDup_filter, seq_NoDup. Qed.
 End Instance.
+
+(* a boolean test of "antisymmetric and transitive on 0..n-1", for concrete examples *)
+Definition po_ok (n : nat) (leq : nat -> nat -> bool) : bool :=
+  forallb (fun a => forallb (fun b =>
+     (negb (leq a b && leq b a) || Nat.eqb a b) &&
+     forallb (fun c => negb (leq a b && leq b c) || leq a c) (seq 0 n)) (seq 0 n)) (seq 0 n).
+
+Lemma po_ok_spec n leq : po_ok n leq = true ->
+  (forall a b, a < n -> b < n -> leq a b = true -> leq b a = true -> a = b) /\
+  (forall a b c, a < n -> b < n -> c < n -> leq a b = true -> leq b c = true -> leq a c = true).
+Proof.
+  intro H. unfold po_ok in H. rewrite forallb_forall in H. split.
+  - intros a b Ha Hb L1 L2. specialize (H a (proj2 (in_seq n 0 a) (conj (Nat.le_0_l a) Ha))).
+    rewrite forallb_forall in H. specialize (H b (proj2 (in_seq n 0 b) (conj (Nat.le_0_l b) Hb))).
+    apply andb_true_iff in H. destruct H as [H _]. rewrite L1, L2 in H. cbn in H. apply Nat.eqb_eq. exact H.
+  - intros a b c Ha Hb Hc L1 L2. specialize (H a (proj2 (in_seq n 0 a) (conj (Nat.le_0_l a) Ha))).
+    rewrite forallb_forall in H. specialize (H b (proj2 (in_seq n 0 b) (conj (Nat.le_0_l b) Hb))).
+    apply andb_true_iff in H. destruct H as [_ H]. rewrite forallb_forall in H.
+    specialize (H c (proj2 (in_seq n 0 c) (conj (Nat.le_0_l c) Hc))). rewrite L1, L2 in H. cbn in H. exact H.
+Qed.
